@@ -234,7 +234,8 @@ func VerifH_C16_jsonp() {
 }
 
 // VerifH_C16_two_cycles: two poll cycles of one session with different Accept-Encoding
-// values: each response is coded according to ITS OWN request.
+// values and different compression requests: each response is coded according to ITS OWN
+// request, and only if a packet of ITS OWN batch asked for compression.
 func VerifH_C16_two_cycles() {
 	p, _ := newPolling("4")
 	p.SetHttpCompression(&types.HttpCompression{Threshold: 0})
@@ -246,7 +247,27 @@ func VerifH_C16_two_cycles() {
 			ctx.Headers().Set("Accept-Encoding", ae)
 		}
 		p.OnRequest(ctx)
-		p.Send([]*packet.Packet{{Type: packet.MESSAGE, Data: types.NewStringBufferString("hello"), Options: &packet.Options{Compress: true}}})
+		// one or two packets; each asks for compression, declines it, or carries no options
+		asked := false
+		var batch []*packet.Packet
+		want := ""
+		n := 1 + verif.Choose(2)
+		for i := 0; i < n; i++ {
+			pk := &packet.Packet{Type: packet.MESSAGE, Data: types.NewStringBufferString("hello")}
+			switch verif.Choose(3) {
+			case 0:
+				pk.Options = &packet.Options{Compress: true}
+				asked = true
+			case 1:
+				pk.Options = &packet.Options{Compress: false}
+			}
+			batch = append(batch, pk)
+			if i > 0 {
+				want += "\x1e"
+			}
+			want += "4hello"
+		}
+		p.Send(batch)
 		verif.Settle()
 		verif.Assert(w.writeCalls == 1, "one response per cycle")
 		if w.writeCalls != 1 {
@@ -254,12 +275,15 @@ func VerifH_C16_two_cycles() {
 		}
 		enc := w.hdr.Get("Content-Encoding")
 		if enc != "" {
+			verif.Assert(asked, "a response is compressed only when a packet of its own batch requested compression")
 			verif.Assert(refAccepts(ae, enc), "the coding is one the request of THIS cycle names")
 			dec, ok := decodeBody(enc, w.bodies[0])
-			verif.Assert(ok && string(dec) == "4hello", "and the body decodes under it to the payload")
+			verif.Assert(ok && string(dec) == want, "and the body decodes under it to the payload")
 		} else {
-			verif.Assert(string(w.bodies[0]) == "4hello", "uncoded body is the payload")
-			verif.Assert(!refAccepts(ae, "gzip") && !refAccepts(ae, "deflate") && !refAccepts(ae, "br") && !refAccepts(ae, "zstd"), "no coding only when the request names none of the supported ones")
+			verif.Assert(string(w.bodies[0]) == want, "uncoded body is the payload")
+			if asked {
+				verif.Assert(!refAccepts(ae, "gzip") && !refAccepts(ae, "deflate") && !refAccepts(ae, "br") && !refAccepts(ae, "zstd"), "no coding only when the request names none of the supported ones")
+			}
 		}
 	}
 }
